@@ -26,11 +26,13 @@ Init == /\ in \in Inputs /\ pc = "search" /\ i = 1 /\ bundle = Absent /\ j = 1 /
 Probe ==
   /\ pc = "search" /\ i <= Len(Paths)
   /\ LET loc == LocAt(in, Paths[i]) IN
-     \/ /\ loc.k = "absent"                                  \* os.IsNotExist: continue
+     \/ /\ Missing(loc)                                      \* os.IsNotExist (absent, dangling link): continue
         /\ i' = i + 1 /\ UNCHANGED <<pc, bundle, out>>
      \/ /\ loc.k = "dir"                                     \* "is not a file": return error
         /\ pc' = "done" /\ out' = ErrOut("notfile") /\ UNCHANGED <<i, bundle>>
-     \/ /\ loc.k = "bundle"                                  \* bundle = file
+     \/ /\ loc.k \in {"loop", "noperm"}                      \* any other open error: "unable to open agent bundle"
+        /\ pc' = "done" /\ out' = ErrOut("open") /\ UNCHANGED <<i, bundle>>
+     \/ /\ loc.k \in {"bundle", "corrupt"}                   \* bundle = file
         /\ bundle' = loc
         /\ IF BreakAfterFirst THEN pc' = "scan" /\ i' = i
                               ELSE pc' = pc /\ i' = i + 1
@@ -46,7 +48,8 @@ SearchEnd ==
 \* one bundleArchive.Next()
 ScanNext ==
   /\ pc = "scan"
-  /\ IF j > Len(bundle.e) THEN pc' = "done" /\ out' = ErrOut("unsupported") /\ j' = j   \* io.EOF
+  /\ IF bundle.k = "corrupt" THEN pc' = "done" /\ out' = ErrOut("gzip") /\ j' = j       \* gzip.NewReader / Next fail
+     ELSE IF j > Len(bundle.e) THEN pc' = "done" /\ out' = ErrOut("unsupported") /\ j' = j   \* io.EOF
      ELSE IF bundle.e[j].n = in.q THEN pc' = "copy" /\ out' = out /\ j' = j
      ELSE pc' = pc /\ out' = out /\ j' = j + 1
   /\ UNCHANGED <<in, i, bundle>>
@@ -64,6 +67,7 @@ FairSpec == Spec /\ WF_vars(Next)
 Inv_C46 == pc = "done" => /\ C46_SearchOrder(in, out)
                           /\ C46_ExactBytes(in, out)
                           /\ C46_UnknownRejected(in, out)
+                          /\ C46_FirstHolderWins(in, out)
 Inv_Expected == pc = "done" => out = Expected(in)
 Terminates == <>(pc = "done")
 ====
